@@ -73,9 +73,10 @@ def corrupt(ev, rng):
     damage = (ev["ev"] == "sign" and ev["sig"] and not ev["err"]) or \
              (ev["ev"] == "verify" and ev["ok"] and not ev["panic"] and rng.random() < 0.7)
     if damage:
-        i = rng.randrange(len(ev["sig"]))
-        ev["sig"] = ev["sig"][:i] + ("0" if ev["sig"][i] != "0" else "1") + ev["sig"][i + 1:]
-        ev["_corrupted"] = "sig"
+        fld = "held" if ev["ev"] == "sign" and rng.random() < 0.5 else "sig"   # held: the slice after later Sign calls
+        i = rng.randrange(len(ev[fld]))
+        ev[fld] = ev[fld][:i] + ("0" if ev[fld][i] != "0" else "1") + ev[fld][i + 1:]
+        ev["_corrupted"] = fld
         return ev
     if ev["ev"] == "verify" and not ev["panic"] and rng.random() < 0.05:
         ev["ok"] = not ev["ok"]
